@@ -160,7 +160,8 @@ func (c *conn) handleSubscribe(in *inEnvelope) error {
 
 	initial := true
 	c.subscriptionLogger.Subscribe(c.ctx, id, tags)
-	c.subscriptions[id] = reactive.NewRerunner(c.ctx, func(ctx context.Context) (interface{}, error) {
+	var self *reactive.Rerunner
+	self = reactive.NewRerunner(c.ctx, func(ctx context.Context) (interface{}, error) {
 		ctx = c.makeCtx(ctx)
 		ctx = batch.WithBatching(ctx)
 
@@ -194,7 +195,7 @@ func (c *conn) handleSubscribe(in *inEnvelope) error {
 
 		if err != nil {
 			if ErrorCause(err) == context.Canceled {
-				go c.closeSubscription(id)
+				go c.closeOwnSubscription(id, &self)
 				return nil, err
 			}
 
@@ -220,7 +221,7 @@ func (c *conn) handleSubscribe(in *inEnvelope) error {
 				Message:  SanitizeError(err),
 				Metadata: output.Metadata,
 			})
-			go c.closeSubscription(id)
+			go c.closeOwnSubscription(id, &self)
 
 			if _, ok := err.(SanitizedError); !ok {
 				c.logger.Error(ctx, err, tags)
@@ -251,6 +252,7 @@ func (c *conn) handleSubscribe(in *inEnvelope) error {
 		initial = false
 		return nil, nil
 	}, c.minRerunIntervalFunc(c.ctx, query), c.alwaysSpawnGoroutineFunc(c.ctx, query))
+	c.subscriptions[id] = self
 
 	return nil
 }
@@ -289,7 +291,8 @@ func (c *conn) handleMutate(in *inEnvelope) error {
 	initial := true
 	e := c.executor
 	c.subscriptionLogger.Subscribe(c.ctx, id, tags)
-	c.subscriptions[id] = reactive.NewRerunner(c.ctx, func(ctx context.Context) (interface{}, error) {
+	var self *reactive.Rerunner
+	self = reactive.NewRerunner(c.ctx, func(ctx context.Context) (interface{}, error) {
 		// Serialize all mutates for a given connection.
 		c.mutateMu.Lock()
 		defer c.mutateMu.Unlock()
@@ -332,7 +335,7 @@ func (c *conn) handleMutate(in *inEnvelope) error {
 				Metadata: output.Metadata,
 			})
 
-			go c.closeSubscription(id)
+			go c.closeOwnSubscription(id, &self)
 
 			if ErrorCause(err) == context.Canceled {
 				return nil, err
@@ -354,9 +357,10 @@ func (c *conn) handleMutate(in *inEnvelope) error {
 		go c.rerunSubscriptionsImmediately()
 
 		initial = false
-		go c.closeSubscription(id)
+		go c.closeOwnSubscription(id, &self)
 		return nil, errors.New("stop")
 	}, c.minRerunIntervalFunc(c.ctx, query), c.alwaysSpawnGoroutineFunc(c.ctx, query))
+	c.subscriptions[id] = self
 
 	return nil
 }
@@ -375,6 +379,21 @@ func (c *conn) closeSubscription(id string) {
 	defer c.mu.Unlock()
 
 	if runner, ok := c.subscriptions[id]; ok {
+		runner.Stop()
+		delete(c.subscriptions, id)
+		c.subscriptionLogger.Unsubscribe(c.ctx, id)
+	}
+}
+
+// closeOwnSubscription is the close a computation requests for its own
+// subscription. It runs asynchronously: by the time it gets the lock the
+// subscription may already have been closed and its id reused, and the new
+// owner of the id must be left alone.
+func (c *conn) closeOwnSubscription(id string, own **reactive.Rerunner) {
+	c.mu.Lock()
+	defer c.mu.Unlock()
+
+	if runner, ok := c.subscriptions[id]; ok && runner == *own {
 		runner.Stop()
 		delete(c.subscriptions, id)
 		c.subscriptionLogger.Unsubscribe(c.ctx, id)
